@@ -599,6 +599,22 @@ pub fn special_cases() -> Vec<(String, Vec<u8>)> {
         fb.finish_table(&[("Root", Val::r(1))], Split::Runs);
         v.push((format!("stream-length-through-reference-only-object-{}", name), fb.bytes()));
     }
+    // rings of colour spaces through every kind that has an alternate or a base
+    for (name, edits) in [
+        ("devicen-is-its-own-alternate", vec![(85u64, 2usize, 85u64)]),
+        ("separation-devicen-ring", vec![(86, 2, 85)]),
+        ("indexed-base-ring", vec![(87, 1, 85)]),
+        ("separation-is-its-own-alternate", vec![(86, 2, 86)]),
+    ] {
+        let mut objs = hostile_objects();
+        for (nr, idx, target) in edits {
+            let e = objs.iter_mut().find(|(n, _)| *n == nr).unwrap();
+            if let Val::Array(a) = &mut e.1 {
+                a[idx] = Val::r(target);
+            }
+        }
+        v.push((format!("colour-space-{}", name), rich_doc_with(b"", DocOpts::CLASSIC, &objs)));
+    }
     // PostScript calculator operands
     for (name, prog) in [("ps-roll-negative", "{ 1 2 3 3 -1 roll }"), ("ps-roll-huge", "{ 1 2 3 3 2147483647 roll }"), ("ps-roll-n-huge", "{ 1 2 2147483647 1 roll }"), ("ps-index-huge", "{ 1 2147483647 index }"), ("ps-index-negative", "{ 1 -1 index }"), ("ps-pop-empty", "{ pop pop pop }"), ("ps-deep", "{ dup dup dup dup dup dup dup dup dup dup dup dup dup dup dup dup dup dup dup dup }"), ("ps-unbalanced", "{ { 1 }"), ("ps-empty", "")] {
         let mut objs = hostile_objects();
